@@ -92,11 +92,18 @@ class Ctx:
 
 # ---------------------------------------------------------------- known findings
 def load_known():
-    p = os.path.join(VERIF, "known_findings.json")
-    if not os.path.exists(p):
-        return []
-    with open(p) as f:
-        return json.load(f).get("entries", [])
+    """known_findings.json plus per-property fragments known_findings.d/*.json (same format);
+    read-only at run time."""
+    out = []
+    paths = [os.path.join(VERIF, "known_findings.json")]
+    d = os.path.join(VERIF, "known_findings.d")
+    if os.path.isdir(d):
+        paths += sorted(os.path.join(d, n) for n in os.listdir(d) if n.endswith(".json"))
+    for p in paths:
+        if os.path.exists(p):
+            with open(p) as f:
+                out += json.load(f).get("entries", [])
+    return out
 
 
 def known_ids(pid):
@@ -240,7 +247,17 @@ def build_hx(ctx):
         except OSError:
             pass
         out_bin = os.path.join(BIN, "hx")
-        rc, out = sh(["go", "build", "-tags", "verif", "-o", out_bin + ".new", "."], cwd=hdir, env=GOENV, timeout=1800)
+        cmd = ["go", "build", "-tags", "verif", "-o", out_bin + ".new"]
+        if REPO != "/repo":
+            # scratch worktree of the repository: same module file with the replace targets redirected
+            os.makedirs(BUILD, exist_ok=True)
+            mod = open(os.path.join(hdir, "go.mod")).read().replace("=> /repo", "=> " + REPO)
+            with open(os.path.join(BUILD, "hx.mod"), "w") as f:
+                f.write(mod)
+            with open(os.path.join(BUILD, "hx.sum"), "w") as f:
+                f.write(open(os.path.join(hdir, "go.sum")).read())
+            cmd.append("-modfile=" + os.path.join(BUILD, "hx.mod"))
+        rc, out = sh(cmd + ["."], cwd=hdir, env=GOENV, timeout=1800)
         if rc == 0:
             os.replace(out_bin + ".new", out_bin)
     ctx.hx_ok = rc == 0
